@@ -109,6 +109,7 @@ func c09Hostile(t *rapid.T, in *Intent) {
 
 type c09TmplOpt struct {
 	Mixin, Collector, Views, Nested, Names bool
+	MinChain                               int // minimal mixin chain depth (0 = 1)
 	// avoid the shapes of known findings (decided by the caller through knownActive)
 	NoCollectorArr, NoMixinDisorder, NoQuoteColonName bool
 }
@@ -142,7 +143,11 @@ func c09GenTmpl(t *rapid.T, o c09TmplOpt) c09Tmpl {
 
 	if o.Mixin {
 		// chain[0] uses chain[1] uses ... chain[d]; extra users hang off random chain members.
-		d := rapid.IntRange(1, 3).Draw(t, "chaindepth")
+		lo := 1
+		if o.MinChain > lo {
+			lo = o.MinChain
+		}
+		d := rapid.IntRange(lo, 3).Draw(t, "chaindepth")
 		names := append([]string{}, c09ChainNames...)
 		// draw d+1 distinct names
 		var chain []string
